@@ -137,6 +137,18 @@ void run_pool(Tape& t, Ctx& ctx, const char* tname) {
         else oname = "update-same-sizes";
         PPModel<DIM> m = gen_model(nseg, ncoef);
         if (kind == 0 && slot[i].init && t.flag()) m.b = slot[i].m.b;  // same breakpoints, new values only
+        if (kind == 0 && slot[i].init && t.chance(1, 3)) {
+          // minute change: identical data except ONE coefficient moved by a relative 2^-k, next to a very large coefficient
+          // (an "unchanged?" shortcut based on a norm-wise comparison would keep stale caches; seeded C11-3)
+          m = slot[i].m;
+          size_t r = (size_t)t.range(0, (int)m.rows.size() - 1); int d = t.range(0, DIM - 1);
+          if (t.flag()) m.rows[(size_t)t.range(0, (int)m.rows.size() - 1)][t.range(0, DIM - 1)] = 1e6 * (1 + t.range(0, 999));
+          double v = m.rows[r][d];
+          double nv = (v == 0) ? pow2i(-t.range(10, 40)) : v * (1.0 + pow2i(-t.range(20, 48)));
+          if (nv == v) nv = std::nextafter(v, INFINITY);
+          m.rows[r][d] = nv;
+          oname = "update-minute-change";
+        }
         MatrixType C = model_matrix<DIM, MatrixType>(m);
         pool[i]->update(m.b, C, ncoef);
         mutated(i);
@@ -282,6 +294,16 @@ void run_spline(Tape& t, Ctx& ctx, const char* sname) {
     // update the spline (either overload)
     std::vector<double> T2; MatrixType P2; double t02; BoundaryConditions<DIM> bc2;
     gen_inputs(T2, P2, t02, bc2);
+    if (t.chance(1, 3)) {
+      // minute change: the same problem with ONE waypoint coordinate moved slightly, far from the origin
+      T2 = sp.getTimeSegments(); P2 = sp.getSpacePoints(); t02 = sp.getStartTime(); bc2 = sp.getBoundaryConditions();
+      if (t.flag()) for (Eigen::Index i = 0; i < P2.rows(); ++i) P2(i, 0) += 1e6;
+      Eigen::Index r = t.range(0, (int)P2.rows() - 1); int d = t.range(0, DIM - 1);
+      double v = P2(r, d), nv = v + (1 + std::fabs(v)) * pow2i(-t.range(20, 44));
+      if (nv == v) nv = std::nextafter(v, INFINITY);
+      P2(r, d) = nv;
+      ctx.label("spline-update:minute-change");
+    }
     bool by_points = t.flag();
     std::vector<double> tp;
     if (by_points) {
